@@ -4,6 +4,13 @@ The library sequences SetDT8ColourValueTc / SetDT8TcLimit / QueryDT8ColourValue 
 fake bus against the frame-level gear model's IEC 62386-209 Tc subset (harness/model_gear.py: raw
 16-bit registers, DTR0 = LSB, DTR1 = MSB, DTR2 = limit selector, ENABLE DEVICE TYPE 8 gating,
 send-twice rule for STORE ... LIMIT, QUERY COLOUR VALUE answers the MSB and leaves the LSB in DTR0).
+
+Histories of calls in one process: the sequences are also run one after the other, each against units and a bus of its
+own (or against the unit of the previous call after someone else changed it), where later calls carry arguments EQUAL to
+those of earlier ones - the same call repeated, and "look-alikes" of a legal argument just used (float / Fraction /
+Decimal / complex / bool / int subclass / __index__ object / foreign enum member that compares and hashes equal to the
+int or selector).  Every call of a history is judged by the oracle of the single call: what an earlier call was given
+or did must not change what a later one does.
 """
 from harness.bus import Bus, Fault, NonTermination, run_interleaved
 from harness.model_gear import GearModel
@@ -18,7 +25,12 @@ RULE = ("enumeration: (mirek value, destination kind) for set, (limit selector, 
         "arguments, advance order) - for pairs every order of the first eight advances x a list of value pairs differing "
         "in the high byte / the low byte / both, for triples a list of orders, plus Hypothesis-generated tuples; "
         "non-trivial = the sequences overlap in time and do not all carry the same value ('exhaustive' in the evidence "
-        "refers to the single-sequence enumeration only)")
+        "refers to the single-sequence enumeration only); histories: (2..6 calls run one after the other in one process, "
+        "each with its own fresh unit and bus or with the previous call's unit after another controller / a power cycle "
+        "changed it): a listed set of values x every argument of the three sequences x every look-alike form, placed "
+        "before, between and after legal calls with equal arguments in two spellings; every sequence repeated with equal "
+        "arguments 2-3 times with and without other calls in between; plus Hypothesis-generated histories over a small "
+        "pool of values; non-trivial = at least two calls of the history carry equal-comparing arguments")
 ASSUMPTIONS = [
     "a conforming DT8 unit takes DTR0 as the low byte and DTR1 as the high byte of a 16-bit value, answers QUERY COLOUR "
     "VALUE with the high byte and leaves the low byte in DTR0 (IEC 62386-209 9.x / command 250), acts on an "
@@ -29,6 +41,16 @@ ASSUMPTIONS = [
     "limit selectors other than the four defined ones are not required to be rejected (the statement is silent)",
     "sequences in flight at the same time on separate buses (one driver per DALI line in one process) are independent: "
     "each must do to its unit, and return, exactly what it does when it runs alone",
+    "calls made one after the other in one process are independent: each is judged by the statement on its own unit, "
+    "whatever earlier calls were given (the statement quantifies over every value and selector, not over first uses)",
+    "a colour temperature that is not an int (float, Fraction, Decimal, complex, an object with __index__) is a "
+    "wrong-type argument even when it compares equal to a 16-bit int: rejected before anything is sent; an instance of "
+    "an int subclass (bool included) may be rejected before anything is sent or be treated exactly as that int",
+    "a query selector that is not a member of the query-code enumeration (a plain int, float, Fraction, Decimal, bool, "
+    "int subclass, member of another enumeration with the same value) is 'not a query code': rejected before anything "
+    "is sent",
+    "look-alikes of the limit selector and of an int destination: the statement is silent; they may be rejected at any "
+    "point, provided the unit has acted on no colour command, or be treated exactly as the equal int",
 ]
 
 DESTS = ["short", "int", "group", "broadcast"]
@@ -82,10 +104,10 @@ def _raised(job, oc, what):
     return [("C14:%s-raised:%s" % (what, type(e).__name__), "%s raised %r" % (job.where, e))]
 
 
-def prep_set(case):
+def prep_set(case, reuse=None):
     gs, colour, address = _load()
     v, kind = case["value"], case["dest"]
-    u, b = unit(), bystander()
+    u, b = reuse if reuse is not None else (unit(), bystander())
     bus = Bus([u, b] if kind in ("short", "int", "group") else [u], max_commands=20)
     where = "SetDT8ColourValueTc(%s, %d)" % (kind, v)
     return Job("set", case, u, b, bus, lambda: gs.SetDT8ColourValueTc(dest(address, kind), v), where)
@@ -228,8 +250,156 @@ def judge_illegal(job, oc):
     return [("C14:illegal-accepted:" + what, "%s illegal argument #%d was accepted; %d commands sent" % (what, case["i"], bus.n))]
 
 
-PREP = {"set": prep_set, "limit": prep_limit, "query": prep_query, "illegal": prep_illegal}
-JUDGE = {"set": judge_set, "limit": judge_limit, "query": judge_query, "illegal": judge_illegal}
+# ------------------------------------------------------------------ look-alikes ----
+# forms of a value that compare (and hash) equal to an int n without being that int
+ALIKE_FORMS = ("float", "fraction", "decimal", "complex", "indexable", "intsub", "bool", "int", "other-enum")
+INT_SUBCLASS_FORMS = ("intsub", "bool", "other-enum")      # isinstance(x, int) holds
+_ALIKE_TYPES = {}
+
+
+def _alike_types():
+    if not _ALIKE_TYPES:
+        class IntSub(int):
+            pass
+
+        class Indexable:
+            """not a number, but usable as an index - equal to, and hashing like, the int it stands for"""
+            def __init__(self, n):
+                self.n = n
+
+            def __index__(self):
+                return self.n
+
+            def __int__(self):
+                return self.n
+
+            def __eq__(self, other):
+                return self.n == other
+
+            def __hash__(self):
+                return hash(self.n)
+
+            def __repr__(self):
+                return "Indexable(%d)" % self.n
+
+        _ALIKE_TYPES["intsub"] = IntSub
+        _ALIKE_TYPES["indexable"] = Indexable
+        _ALIKE_TYPES["enums"] = {}
+    return _ALIKE_TYPES
+
+
+def forms_for(n, arg):
+    """The look-alike forms that exist for the int n used as argument `arg` ('tc' | 'selector' | 'address' | 'query')."""
+    out = []
+    for f in ALIKE_FORMS:
+        if f == "bool" and n not in (0, 1):
+            continue
+        if f == "int" and arg != "query":
+            continue            # a plain int IS the legal form of every argument but the query selector
+        out.append(f)
+    return out
+
+
+def look_alike(form, n):
+    import decimal
+    import enum
+    import fractions
+    t = _alike_types()
+    if form == "float":
+        return float(n)
+    if form == "fraction":
+        return fractions.Fraction(n)
+    if form == "decimal":
+        return decimal.Decimal(n)
+    if form == "complex":
+        return complex(n)
+    if form == "bool":
+        return bool(n)
+    if form == "int":
+        return int(n)
+    if form == "intsub":
+        return t["intsub"](n)
+    if form == "indexable":
+        return t["indexable"](n)
+    if form == "other-enum":
+        if n not in t["enums"]:
+            t["enums"][n] = enum.IntEnum("NotAQueryCode", {"Member%d" % n: n})
+        return list(t["enums"][n])[0]
+    raise ValueError("look-alike form %r" % (form,))
+
+
+def prep_alike(case):
+    """A call in which ONE argument is replaced by a look-alike of its legal int value.
+    case: what 'set'|'limit'|'query', arg 'tc'|'selector'|'address', form, value, selector, dest (int address form)"""
+    gs, colour, address = _load()
+    what, arg, form = case["what"], case["arg"], case["form"]
+    v, sel = case["value"], case.get("selector", 0)
+    u, b = unit(), bystander()
+    if what == "query":
+        u.level = 170
+        u.colour_values = {s_: (v if s_ == sel else (v ^ 0x5A5A) & 0xFEFF) for s_ in selectors()}
+    bus = Bus([u, b], max_commands=20)
+
+    def seq():
+        a = look_alike(form, 9) if arg == "address" else (address.GearShort(9) if case.get("dest") == "short" else 9)
+        if what == "set":
+            return gs.SetDT8ColourValueTc(a, look_alike(form, v) if arg == "tc" else v)
+        if what == "limit":
+            return gs.SetDT8TcLimit(a, look_alike(form, sel) if arg == "selector" else sel,
+                                    look_alike(form, v) if arg == "tc" else v)
+        return gs.QueryDT8ColourValue(a, look_alike(form, sel) if arg == "selector" else colour.QueryColourValueDTR(sel))
+
+    where = "%s with its %s given as the %s look-alike of %d (other arguments: %s)" % (
+        {"set": "SetDT8ColourValueTc", "limit": "SetDT8TcLimit", "query": "QueryDT8ColourValue"}[what],
+        {"tc": "colour temperature", "selector": "selector", "address": "destination"}[arg], form,
+        9 if arg == "address" else sel if arg == "selector" else v,
+        ", ".join("%s %d" % (n, x) for n, x in (("destination", 9), ("selector", sel), ("value", v))
+                  if not (n == "selector" and what == "set") and not (n == "value" and what == "query")))
+    return Job("alike", case, u, b, bus, seq, where)
+
+
+def alike_mode(case):
+    """'reject' (must be rejected before anything is sent) | 'reject-or-int' (that, or exactly as the int) |
+    'any-or-int' (rejected at any point with the unit untouched, or exactly as the int)"""
+    what, arg, form = case["what"], case["arg"], case["form"]
+    if arg == "tc":
+        return "reject-or-int" if form in INT_SUBCLASS_FORMS else "reject"
+    if arg == "selector" and what == "query":
+        return "reject"
+    return "any-or-int"
+
+
+def judge_alike(job, oc):
+    case, u, b, bus, where = job.case, job.u, job.b, job.bus, job.where
+    what, mode = case["what"], alike_mode(case)
+    name = "%s-%s" % (what, case["arg"])
+    if oc[0] == "raised":
+        e = oc[1]
+        if library_frame(e.__traceback__) is None and not isinstance(e, NonTermination):
+            raise e
+        if isinstance(e, NonTermination):
+            return [("C14:look-alike-nontermination:" + name, "%s: more than %d commands" % (where, bus.max_commands))]
+        out = []
+        if bus.n and mode != "any-or-int":
+            out.append(("C14:look-alike-rejected-late:" + name, "%s: %d command(s) were sent before %r" % (where, bus.n, e)))
+        if u.log or b.log or u.tc != 0xFFFF or any(x != 0xFFFF for x in u.tc_limits):
+            out.append(("C14:look-alike-rejected-but-acted-on:" + name, "%s: raised %r, but the unit acted on %r (Tc %d, "
+                        "limits %r), the other unit on %r" % (where, e, u.log, u.tc, u.tc_limits, b.log)))
+        return out
+    if mode == "reject":
+        return [("C14:look-alike-accepted:" + name, "%s was accepted: %d command(s) sent, the unit acted on %r, returned %r"
+                 % (where, bus.n, u.log, oc[1]))]
+    # accepted: then it must be treated exactly as the int it equals
+    sub = dict(case, dest="int")
+    legal = Job(what, sub, u, b if what != "limit" else None, bus, job.seq, where)
+    vs = JUDGE[what](legal, oc)
+    if what == "limit" and b.log:
+        vs = vs + [("C14:limit-hit-bystander", "%s: another unit saw %r" % (where, b.log))]
+    return vs
+
+
+PREP = {"set": prep_set, "limit": prep_limit, "query": prep_query, "illegal": prep_illegal, "alike": prep_alike}
+JUDGE = {"set": judge_set, "limit": judge_limit, "query": judge_query, "illegal": judge_illegal, "alike": judge_alike}
 
 
 def case_single(case):
@@ -294,9 +464,99 @@ def case_interleaved(case):
     return out
 
 
+# ------------------------------------------------ calls one after the other ----
+def disturb(u, b, how, v):
+    """What may happen to a unit between two calls: another controller sets another colour temperature and uses the
+    DTRs, or the unit loses power and comes back with its power-on values."""
+    if how == "power-cycle":
+        u.tc, u.temp_tc = 0xFFFF, 0xFFFF
+        u.dtr0 = u.dtr1 = u.dtr2 = 0
+        u.enabled_dt = None
+    else:
+        other = (v ^ 0x0155) & 0xFFFF
+        u.tc, u.temp_tc = (other if other != 0xFFFF else 0x0155), 0xFFFF
+        u.dtr0, u.dtr1, u.dtr2 = 0x3C, 0xC3, 0x99
+    u.log = []
+    if b is not None:
+        b.log = []
+
+
+def _step_name(c):
+    return "look-alike-%s-%s" % (c["what"], c["arg"]) if c["kind"] == "alike" else \
+        "illegal-" + c["what"] if c["kind"] == "illegal" else c["kind"]
+
+
+def _step_args(c):
+    """(sequence, the arguments as plain numbers) - equal for calls whose arguments compare equal"""
+    what = c["what"] if c["kind"] in ("alike", "illegal") else c["kind"]
+    if c["kind"] == "illegal":
+        return (what, "illegal", c["i"])
+    if what == "set":
+        return (what, c["value"])
+    if what == "limit":
+        return (what, c.get("selector", 0), c["value"])
+    return (what, c.get("selector", 0))
+
+
+def related(case):
+    """Do at least two calls of the history carry equal-comparing arguments?"""
+    a = [_step_args(c) for c in case["steps"]]
+    return len(set(a)) < len(a)
+
+
+def case_history(case):
+    """Calls made one after the other in one process.  Each has fresh units and a bus of its own - or, with 'same_unit',
+    the units of the previous call after they were changed behind the library's back - and is judged as a single call."""
+    out, seen = [], set()
+    prev = None
+    passed = []
+    for k, step in enumerate(case["steps"]):
+        if step["kind"] == "set" and step.get("same_unit") and prev is not None and prev.b is not None:
+            disturb(prev.u, prev.b, step["same_unit"], step["value"])
+            job = prep_set(step, reuse=(prev.u, prev.b))
+        else:
+            job = PREP[step["kind"]](step)
+        vs = JUDGE[job.kind](job, run_alone(job))
+        prev = job
+        plain = {x: y for x, y in step.items() if x != "same_unit"}
+        if vs and k and plain in passed:
+            # the very same call was fine earlier in this history
+            sig = "C14:call-depends-on-earlier-calls:" + _step_name(step)
+            if sig not in seen:
+                seen.add(sig)
+                out.append((sig, "call #%d of %d made one after the other (%s): %s [%s]; the same call passed as call #%d. "
+                            "Earlier calls: %s" % (k, len(case["steps"]), "on the previous call's unit after a %s" %
+                                                  step["same_unit"] if step.get("same_unit") else "fresh unit and bus",
+                                                  vs[0][1], vs[0][0], passed.index(plain), _history_text(case["steps"][:k]))))
+            continue
+        if not vs:
+            passed.append(plain)
+        for sig, msg in vs:
+            if sig not in seen:
+                seen.add(sig)
+                out.append((sig, msg if not k else "%s (call #%d; earlier calls: %s)" % (msg, k, _history_text(case["steps"][:k]))))
+    return out
+
+
+def _history_text(steps):
+    out = []
+    for c in steps:
+        if c["kind"] == "alike":
+            out.append("%s(%s=%s of %d)" % (c["what"], c["arg"], c["form"],
+                                           9 if c["arg"] == "address" else c.get("selector", 0) if c["arg"] == "selector" else c["value"]))
+        elif c["kind"] == "illegal":
+            out.append("%s(illegal #%d)" % (c["what"], c["i"]))
+        else:
+            out.append("%s(%s)" % (c["kind"], ", ".join("%s=%r" % (k, c[k]) for k in ("dest", "selector", "value", "as_enum", "int_addr")
+                                                         if k in c)))
+    return "; ".join(out)
+
+
 def run_case(case):
     if case["kind"] == "interleaved":
         return case_interleaved(case)
+    if case["kind"] == "history":
+        return case_history(case)
     return case_single(case)
 
 
@@ -435,9 +695,149 @@ def inter_st():
     return gen()
 
 
+# ---------------------------------------------------------------- history shards ----
+def hist_values(seed, n=20):
+    out = [0, 1, 2, 255, 256, 257, 370, 0x1234, 0x8000, 0xFE00, 0xFEFF, 0xFF00, 65534, 65535]
+    k = 0
+    while len(out) < n:
+        v = (seed * 7919 + k * 25717 + 153) & 0xFFFF
+        if v not in out:
+            out.append(v)
+        k += 1
+    return out[:n]
+
+
+def _hist(steps):
+    return {"kind": "history", "steps": steps}
+
+
+def _alike(what, arg, form, v, sel=0, dest="int"):
+    return {"kind": "alike", "what": what, "arg": arg, "form": form, "value": v, "selector": sel, "dest": dest}
+
+
+def _legal(what, v, sel, k):
+    """The legal call with value v / selector sel in its k-th spelling (destination and selector form)."""
+    if what == "set":
+        return {"kind": "set", "value": v, "dest": ("int", "short")[k % 2]}
+    if what == "limit":
+        return {"kind": "limit", "value": v, "selector": sel, "dest": ("int", "short")[k % 2], "as_enum": bool((k // 2) % 2)}
+    return {"kind": "query", "selector": sel, "value": v, "int_addr": not (k % 2), "level": 170}
+
+
+def _shard_hist(arg):
+    what = arg[0]
+    res = Result()
+
+    def go(case, label):
+        res.count()
+        vs = run_case(case)
+        if related(case):
+            res.nontrivial()
+        res.label(label)
+        for sig, msg in vs:
+            res.violation(sig, case, msg)
+
+    if what == "alike":
+        # look-alike of every argument before, between and after legal calls with equal arguments (two spellings)
+        _, seed, seq = arg
+        sels = selectors()
+        n = 0
+        for vi, v in enumerate(hist_values(seed)):
+            if seq == "query":
+                todo = [("selector", s_) for s_ in sels[vi % 8::8]] + [("address", sels[vi % len(sels)])]
+            elif seq == "limit":
+                todo = [("tc", s_) for s_ in range(4)] + [("selector", s_) for s_ in range(4)] + [("address", vi % 4)]
+            else:
+                todo = [("tc", 0), ("address", 0)]
+            for argname, sel in todo:
+                n_arg = 9 if argname == "address" else sel if argname == "selector" else v
+                for form in forms_for(n_arg, "query" if (seq, argname) == ("query", "selector") else argname):
+                    for dest in ("int", "short") if argname != "address" else ("int",):
+                        n += 1
+                        a = _alike(seq, argname, form, v, sel, dest)
+                        k = n + (0 if dest == "int" else 1)
+                        go(_hist([a, _legal(seq, v, sel, k), a, _legal(seq, v, sel, k + 1 + 2 * (n % 2)), a]),
+                           "history:look-alike:%s-%s" % (seq, argname))
+        res.sample(_hist([_alike("limit", "tc", "float", 370, 1), _legal("limit", 370, 1, 0), _alike("limit", "tc", "float", 370, 1)]),
+                   cls="history: look-alike after legal use")
+    elif what == "repeat":
+        # the same call again: fresh unit and bus (second line), or the same unit changed by someone else in between
+        _, seed = arg
+        n = 0
+        for vi, v in enumerate(hist_values(seed)):
+            other = (v ^ 0x0101) & 0xFFFF
+            for d in DESTS:
+                s1 = {"kind": "set", "value": v, "dest": d}
+                for how in (None, "other-controller", "power-cycle"):
+                    s2 = dict(s1, same_unit=how) if how else s1
+                    for between in ([], [{"kind": "set", "value": other, "dest": d}], [_legal("query", v, selectors()[n % len(selectors())], n)],
+                                    [_legal("limit", v, n % 4, n)], [{"kind": "illegal", "what": "set", "i": n % len(ILLEGAL_TC)}]):
+                        n += 1
+                        go(_hist([s1] + between + [s2] + ([s2] if n % 3 == 0 else [])), "history:repeat:set")
+            for sel in range(4):
+                for k in range(4):
+                    n += 1
+                    l1 = _legal("limit", v, sel, k)
+                    go(_hist([l1, l1] + ([_legal("limit", other, sel, k), l1] if k % 2 else [])), "history:repeat:limit")
+            sels = selectors()
+            for sel in sels[vi % 3::3]:
+                n += 1
+                q1 = _legal("query", v & 0xFEFF, sel, n)
+                go(_hist([q1, dict(q1, value=other & 0xFEFF), q1, dict(q1, value=other | 0xFF00), dict(q1, fault=[2 + n % 2, "silence"]), q1]),
+                   "history:repeat:query")
+        res.sample(_hist([{"kind": "set", "value": 370, "dest": "short"}, {"kind": "set", "value": 370, "dest": "short",
+                                                                          "same_unit": "other-controller"}]),
+                   cls="history: same call twice")
+    elif what == "hyp":
+        from harness import hyp
+        _, seed, n = arg
+        hyp.search(history_st(), run_case, res, n, seed, ID, nontrivial=related,
+                   classify=lambda c: ["hyp:history:%d" % len(c["steps"])] + ["hyp:history:has-" + _step_name(j) for j in c["steps"]],
+                   extra_rounds_budget_s=10.0)
+    return res
+
+
+def history_st():
+    from hypothesis import strategies as st
+
+    @st.composite
+    def gen(draw):
+        pool = draw(st.lists(st.one_of(st.integers(0, 65535), st.sampled_from([0, 1, 255, 256, 0xFEFF, 0xFF00, 0xFFFF])),
+                             min_size=1, max_size=2, unique=True))
+        psel = draw(st.lists(st.integers(0, 3), min_size=1, max_size=2, unique=True))
+        sels = selectors()
+        qsel = draw(st.lists(st.sampled_from(sels), min_size=1, max_size=2, unique=True))
+        steps = []
+        for i in range(draw(st.integers(2, 6))):
+            v = draw(st.sampled_from(pool))
+            what = draw(st.sampled_from(KINDS3))
+            sel = draw(st.sampled_from(qsel if what == "query" else psel))
+            how = draw(st.integers(0, 9))
+            if how < 5:
+                j = _legal(what, v if what != "query" else v, sel, draw(st.integers(0, 7)))
+                if what == "set":
+                    j["dest"] = draw(st.sampled_from(DESTS))
+                    if steps and draw(st.booleans()):
+                        j["same_unit"] = draw(st.sampled_from(["other-controller", "power-cycle"]))
+                steps.append(j)
+            elif how < 9:
+                argname = draw(st.sampled_from({"set": ["tc", "address"], "limit": ["tc", "selector", "address"],
+                                                "query": ["selector", "address"]}[what]))
+                n_arg = 9 if argname == "address" else sel if argname == "selector" else v
+                form = draw(st.sampled_from(forms_for(n_arg, "query" if (what, argname) == ("query", "selector") else argname)))
+                steps.append(_alike(what, argname, form, v, sel, draw(st.sampled_from(["int", "short"]))))
+            else:
+                steps.append({"kind": "illegal", "what": what, "i": draw(st.integers(0, 5))})
+        return _hist(steps)
+
+    return gen()
+
+
 def _dispatch(arg):
     if arg[0] == "inter":
         return _shard_inter(arg[1:])
+    if arg[0] == "hist":
+        return _shard_hist(arg[1:])
     return _shard(arg)
 
 
@@ -513,10 +913,17 @@ def run(ctx):
     shards.append(("inter", "illegal"))
     for k in range(4 if q else 16):
         shards.append(("inter", "hyp", s * 1000 + k, 300 if q else 3000))
+    # calls one after the other in one process: look-alikes of arguments just used, the same call again
+    for seq in KINDS3:
+        shards.append(("hist", "alike", s, seq))
+    shards.append(("hist", "repeat", s))
+    for k in range(4 if q else 16):
+        shards.append(("hist", "hyp", s * 1000 + 500 + k, 250 if q else 2500))
     ctx.pmap(_dispatch, shards)
     # 'exhaustive' speaks of the single-sequence space (all 65536 values per destination / selector), as before; the
     # sequences-in-flight cases are an enumeration over a LIST of value pairs plus a Hypothesis sample, not a complete space
     ctx.result.exhaustive = not q
     ctx.result.extra["sequences_in_flight"] = "enumerated orders x listed value pairs + Hypothesis sample (not exhaustive)"
+    ctx.result.extra["histories"] = "listed values x every argument x every look-alike form + Hypothesis sample (not exhaustive)"
     ctx.result.extra["query_selectors"] = len(sels)
     ctx.result.extra["strides"] = {"set_and_limit": st_, "query_values": qs}
